@@ -29,14 +29,15 @@ import tempfile
 from .. import common, worlds
 from ..common import Result, Violation
 
-CK_ORDER = ["nohook", "A", "B", "n"]
+CK_ORDER = ["nohook", "A", "B", "C", "n"]
 
 
 def configs(tier):
     if tier == "quick":
-        return [dict(name="Q2", modules=["ma", "mb"], checkers=["nohook", "A", "B"], small=True)]
+        return [dict(name="Q2", modules=["ma", "mb"], checkers=["nohook", "A", "C"], small=True)]  # C: a typechecker module that imports mb
     return [
         dict(name="T2", modules=["ma", "mb"], checkers=["nohook", "A", "B", "n"]),
+        dict(name="T2C", modules=["ma", "mb"], checkers=["nohook", "A", "C"], small=True),
         dict(name="T3", modules=["ma", "mb", "mc"], checkers=["nohook", "A"]),
     ]
 
@@ -90,7 +91,7 @@ def judge(cfg, op, obs, src_versions, pre_listing):
     probs = []
     if len(op) > 4 and op[4] == "disabled":
         return []  # with checking off instrumentation is not observable; only what the run leaves behind matters
-    plan = worlds.c18_load_plan(order, cfg["modules"])
+    plan = worlds.c18_load_plan(order, cfg["modules"], ck, hooked)
     if obs["outcome"] != "ok":
         return [("run-raised:" + obs["outcome"].split(":")[1], "-", obs["outcome"])]
     if sorted(obs["loaded"]) != sorted(plan):
